@@ -365,20 +365,25 @@ def d3_maps(prog, rep):
         names = {nrows: 'R', strip_casts(ncols) if ncols else None: 'C'}
         pushes = [c for c in f.calls() if c.path and short(c.path) == 'push']
         ok = False
-        why = ''
+        recognised = False
+        why = 'the result is not built by one push of a[..] inside two counted for-loops'
         if len(pushes) == 1 and tag(pushes[0].args[1]) == 'index' and pushes[0].args[1][1] == a:
             src = _symbolise(ix, poly(pushes[0].args[1][2]), names)
             loops = [li for li in ix.loops if pushes[0].bb in li['blocks']]
             loops.sort(key=lambda li: -len(li['blocks']))
-            his = [_name_poly(ix.item_range(li['item'])[1], names) if ix.item_range(li['item']) else None for li in loops]
+            his = [_name_poly(ix.item_range(li['item'])[1], names) if li['item'] is not None and ix.item_range(li['item']) else None for li in loops]
             # outer loop over columns, inner over rows; source a[i*C + j]
             want = {('C', 'i<R'): 1, ('i<C',): 1}
             ok = his == ['C', 'R'] and src == want
+            # a verdict needs the whole enumeration read: two loops with named bounds and a source index over them
+            recognised = len(his) == 2 and all(h is not None for h in his) and src is not None
             why = 'loops %s, source index %s' % (his, _sig(src) if src else None)
         if ok:
             rep.ok('map-signature', key, 'out (C x R) pushes a[i*C + j] for j in 0..C (outer), i in 0..R (inner): out[j][i] = a[i][j]')
-        else:
+        elif recognised:
             rep.viol('map-signature', key, 'transpose does not enumerate a[i*C + j] column by column (%s)' % why, site_of(f.body))
+        else:
+            rep.undecided('map-signature', key, 'enumeration order of transpose not read (%s)' % why, site_of(f.body), proof=False)
     # ---- layout conversions: store signatures
     for name, want_out, want_in in (('row_to_col_major', {('R', 'i<C'): 1, ('i<R',): 1}, {('C', 'i<R'): 1, ('i<C',): 1}),
                                     ('col_to_row_major', {('C', 'i<R'): 1, ('i<C',): 1}, {('R', 'i<C'): 1, ('i<R',): 1})):
@@ -816,13 +821,19 @@ def d6_rotations(prog, rep):
                 mats[(name, var)] = ent
         if not okshape:
             rep.viol('rotation', 'rotation:%s:shape' % name, 'result is not a 3 x 3 Matrix', site_of(f.body))
-    axes = sorted({v for (_, v) in mats if v is not None})
+    axes = sorted({v for (_, v) in mats if v is not None} | {0, 1, 2})
     for ax in axes:
         cw = mats.get(('rotation_matrix_cw', ax))
         ccw = mats.get(('rotation_matrix_ccw', ax))
         an = {0: 'X', 1: 'Y', 2: 'Z'}.get(ax, str(ax))
         if cw is None or ccw is None or any(e is None for e in cw + ccw):
-            rep.undecided('rotation', 'rotation:axis%s' % an, 'entries are not polynomials in sin/cos of the angle')
+            # the nine entries per axis are not literal polynomials in sin/cos of the angle (built by a helper, a loop, ..):
+            # every relation of this axis stays open, under its own key
+            subkeys = ['cw[%d][%d]=ccw[%d][%d]' % (i, j, j, i) for i in range(3) for j in range(3)] + \
+                ['cw:orthogonal', 'cw:det', 'ccw:orthogonal', 'ccw:det', 'sense']
+            for sk in subkeys:
+                rep.undecided('rotation', 'rotation:axis%s:%s' % (an, sk), 'entries of the %s matrix are not read as polynomials in sin/cos of the angle' % (
+                    'clockwise' if (cw is None or any(e is None for e in cw)) else 'counter-clockwise'), proof=False)
             continue
         for i in range(3):
             for j in range(3):
